@@ -274,6 +274,11 @@ class Documentable:
         old_name = self.name
         self.parent = self.parentMod = new_parent
         self.name = new_name
+        if self.fullName() in self.system.allobjects and new_name in new_parent.contents \
+                and new_parent.contents[new_name] is not old_parent:
+            # The name is already defined at the new location: the older
+            # definition is superseded, like any other duplicate.
+            self.system.handleDuplicate(self)
         self._handle_reparenting_post()
         del old_parent.contents[old_name]
         old_parent._localNameToFullName_map[old_name] = self.fullName()
